@@ -4,57 +4,83 @@
     result: re-serialise, re-parse, recompute the identifier with an independent SHA-256. *)
 From Coq Require Import List NArith Bool.
 From V.Lib Require Import Base Hex.
-From V.C03 Require Import Codec.
+From V.Gen Require Import C03Tables.
+From V.C03 Require Import Codec Sha256.
 Import ListNotations.
 Local Open Scope N_scope.
 
-(** What the harness reports about an accepted transaction:
+(** What the harness reports about one call [Transaction::read(&bytes[..], ctx)] that accepted:
     - [consumed]: bytes the reader took from the stream;
     - [rw]: [None] when [write] reproduced exactly the consumed prefix, else what it wrote;
-    - [same]: parsing the re-serialisation gives a transaction with identical fields (Debug
-      rendering), identical txid and identical authorising-data commitment, and serialising
-      that once more gives identical bytes;
-    - [hash_ok]: for v1–v4 the txid is SHA-256d of the consumed prefix (sha2 crate);
+    - [txid]: the 32 bytes of [txid()];
+    - [branch]: [consensus_branch_id()] as u32;
+    - [same]: parsing the re-serialisation gives a transaction with identical fields (rendered
+      through accessors and the primitive encoders), identical txid and identical authorising-data
+      commitment, and serialising that once more gives identical bytes;
     - [gen_same]: (generated inputs) the parsed transaction equals the generated one in fields,
-      txid and authorising-data commitment. *)
-Inductive txobs := TxOk (consumed : N) (rw : option bytes) (same hash_ok gen_same : bool).
-Inductive hdrobs := HdrOk (consumed : N) (rw : option bytes) (same hash_ok : bool).
+      txid and authorising-data commitment.
+    The same bytes are then parsed again through other [Read] implementations (at most k bytes per
+    call; a chain of two slices split at p; at most k bytes per call with trailing garbage), and
+    for each of them: the bytes handed out, whether fields + re-serialisation are identical to
+    those of the slice parse, and the txid when it differs from that of the slice parse. *)
+Inductive txobs := TxOk (consumed : N) (rw : option bytes) (txid : bytes) (branch : N) (same gen_same : bool).
+Inductive hdrobs := HdrOk (consumed : N) (rw : option bytes) (hash : bytes) (same : bool).
+Inductive altres := AltOk (consumed : N) (ser_same : bool) (id : option bytes) | AltErr | AltPanic.
+Definition altobs : Type := N * N * altres. (* reader kind, parameter, result *)
 
 (** origins of an input *)
-Definition S_GEN : N := 0.       (* generated well-formed transaction / header *)
-Definition S_EDGE : N := 1.      (* generated, forced edge shape *)
-Definition S_NONCANON : N := 6. (* a length prefix of a valid encoding re-encoded non-canonically *)
+Definition S_GEN : N := 0.        (* generated well-formed transaction / header *)
+Definition S_EDGE : N := 1.       (* generated, forced edge shape *)
+Definition S_NONCANON : N := 6.   (* a length prefix of a valid encoding re-encoded non-canonically *)
 Definition S_AMOUNT_BAD : N := 7. (* an amount field of a valid encoding overwritten out of range *)
-
-Definition S_V4_VB : N := 12.    (* v4, no Sapling spends/outputs, non-zero valueBalanceSapling *)
+Definition S_V4_VB : N := 12.     (* v4, no Sapling spends/outputs, non-zero valueBalanceSapling *)
 
 Definition generated (src : N) : bool := (src =? S_GEN) || (src =? S_EDGE).
 Definition must_reject (src : N) : bool := (src =? S_NONCANON) || (src =? S_AMOUNT_BAD) || (src =? S_V4_VB).
 
-Definition is_none {A} (o : option A) : bool := match o with None => true | Some _ => false end.
+(** little-endian u32 at a byte offset of the raw input *)
+Definition u32_at (off : nat) (b : bytes) : N := of_le (firstn 4 (skipn off b)).
+(** v1–v4 header: overwintered bit clear, or version number below 5 *)
+Definition legacy_hdr (b : bytes) : bool :=
+  let h := u32_at 0 b in (h <? 2147483648) || (h - 2147483648 <? V5_TX_VERSION).
+
+Definition alt_agrees (c : N) (a : altobs) : bool :=
+  match snd a with AltOk c' ss None => (c' =? c) && ss | _ => false end.
+Definition alt_rejects (a : altobs) : bool :=
+  match snd a with AltErr => true | _ => false end.
+
+Definition prefix_or (b : bytes) (c : N) (rw : option bytes) : bytes :=
+  match rw with None => firstn (N.to_nat c) b | Some w => w end.
 
 (** The property on one transaction observation. *)
-Definition tx_prop (src : N) (b : bytes) (o : outcome txobs unit) : bool :=
+Definition tx_prop (src ctx : N) (b : bytes) (o : outcome txobs unit) (alts : list altobs) : bool :=
   match o with
   | Panic => false                                             (* never panics *)
   | Err _ => negb (generated src)                              (* generated => accepted *)
-  | Ok (TxOk c rw same hash_ok gen_same) =>
+             && forallb alt_rejects alts                       (* every reader rejects as well *)
+  | Ok (TxOk c rw txid br same gen_same) =>
       negb (must_reject src)                                   (* non-canonical prefix / bad amount rejected *)
       && (c <=? nlen b)                                        (* never reads past the input *)
       && (negb (generated src) || (c =? nlen b))               (* generated => consumed entirely *)
-      && is_none rw                                            (* re-serialises to the consumed prefix *)
+      && bytes_eqb (prefix_or b c rw) (firstn (N.to_nat c) b)  (* re-serialises to the consumed prefix *)
       && same                                                  (* and that parses back to the same value *)
-      && hash_ok                                               (* identifier = SHA-256d(bytes) for v1-v4 *)
       && gen_same                                              (* generated => identical fields, txid, auth digest *)
+      && (if legacy_hdr b
+          then bytes_eqb txid (sha256d (firstn (N.to_nat c) b)) (* v1-v4: txid = SHA-256d of the encoding *)
+               && (br =? ctx)                                  (*        branch id is the caller's *)
+          else br =? u32_at 8 b)                               (* v5+:   branch id is the encoded one *)
+      && forallb (alt_agrees c) alts                           (* same outcome through every reader *)
   end.
 
-Definition hdr_prop (src : N) (b : bytes) (o : outcome hdrobs unit) : bool :=
+Definition hdr_prop (src : N) (b : bytes) (o : outcome hdrobs unit) (alts : list altobs) : bool :=
   match o with
   | Panic => false
-  | Err _ => negb (generated src)
-  | Ok (HdrOk c rw same hash_ok) =>
+  | Err _ => negb (generated src) && forallb alt_rejects alts
+  | Ok (HdrOk c rw hash same) =>
       negb (must_reject src) && (c <=? nlen b) && (negb (generated src) || (c =? nlen b))
-      && is_none rw && same && hash_ok
+      && bytes_eqb (prefix_or b c rw) (firstn (N.to_nat c) b) && same
+      && bytes_eqb hash (sha256d (firstn (N.to_nat c) b))      (* block hash = SHA-256d of the encoding *)
+      && forallb (alt_agrees c) alts
   end.
 
 (** CompactSize, specified through the encoder only: a prefix of the input is accepted iff it is
